@@ -63,7 +63,7 @@ def exists_of(c, tag, xs, P):
     eng.register_forall(ForAll(lambda k: Implies(And(Not(r), k >= 0, k < n), Not(P(nth(xs, k)))), over=xs))
     w = eng.fresh_int("spec_witness_" + tag)
     eng.assume(Implies(r, And(w >= 0, w < n, P(nth(xs, w)))))
-    eng.add_index_term(w)
+    eng.add_index_term(w, over=xs)
     cache[key] = r
     eng._keep.append(xs)
     return r
@@ -77,13 +77,38 @@ def _lz(fn):
     return g
 
 
+FORK_ON_SPEC_BOOLEANS = False
+
+
+def pick(c, cond, a, b):
+    """ite(cond, a, b).  When the clause is being PROVED the verification forks on cond (both alternatives are
+    verified, infeasible ones are pruned), which keeps offsets into the appended bytes free of if-then-else terms."""
+    if conc(c):
+        return a if cond else b
+    if not V.is_sym(cond):
+        return a if cond else b
+    if c.eng.ctx_mode == "prove" and (FORK_ON_SPEC_BOOLEANS or getattr(c.eng.contract, "fork_spec_booleans", False)):
+        memo = c.eng.ghost.setdefault("pick_memo", {})
+        key = cond.t.get_id()
+        if key not in memo:
+            c.eng._keep.append(cond)
+            memo[key] = c.eng.branch(cond)
+        return a if memo[key] else b
+    if c.eng.ctx_mode == "prove":
+        if V.known(cond):
+            return a
+        if V.known(Not(cond)):
+            return b
+    return ite(cond, a, b)
+
+
 def numbers_clauses(tag, data, start, cuts, xs, n, guard=True):
     """data holds, from offset `start`, the NUMBERs of xs[0..n): cuts[k] = offset of the k-th, cuts[n] = end"""
     return [
         (tag + ".count", Implies(guard, L(cuts) == n + 1)),
         (tag + ".starts", Implies(guard, nth(cuts, 0) == start)),
-        (tag + ".consecutive", ForAll(lambda k: nth(cuts, k + 1) == nth(cuts, k) + SP.NL(data, nth(cuts, k)), guard=lambda k: And(guard, k >= 0, k < n), over=cuts)),
-        (tag + ".values", ForAll(lambda k: SP.NV(data, nth(cuts, k)) == nth(xs, k), guard=lambda k: And(guard, k >= 0, k < n), over=cuts)),
+        (tag + ".consecutive", ForAll(lambda k: nth(cuts, k + 1) == nth(cuts, k) + SP.NL(data, nth(cuts, k)), guard=lambda k: And(guard, k >= 0, k < n), over=cuts, trigger=False)),
+        (tag + ".values", ForAll(lambda k: SP.NV(data, nth(cuts, k)) == nth(xs, k), guard=lambda k: And(guard, k >= 0, k < n), over=cuts, trigger=False)),
     ]
 
 
@@ -93,9 +118,9 @@ def numbers_inv(data, start, cuts, xs, i):
         ("cuts-length", L(cuts) == i + 1),
         ("cuts-first", nth(cuts, 0) == start),
         ("cuts-last", nth(cuts, i) == L(data)),
-        ("cuts-inside", ForAll(lambda k: And(nth(cuts, k) >= start, nth(cuts, k + 1) <= L(data), nth(cuts, k) < nth(cuts, k + 1)), guard=lambda k: And(k >= 0, k < i), over=cuts)),
-        ("consecutive", ForAll(lambda k: nth(cuts, k + 1) == nth(cuts, k) + SP.NL(data, nth(cuts, k)), guard=lambda k: And(k >= 0, k < i), over=cuts)),
-        ("values", ForAll(lambda k: SP.NV(data, nth(cuts, k)) == nth(xs, k), guard=lambda k: And(k >= 0, k < i), over=cuts)),
+        ("cuts-inside", ForAll(lambda k: And(nth(cuts, k) >= start, nth(cuts, k + 1) <= L(data), nth(cuts, k) < nth(cuts, k + 1)), guard=lambda k: And(k >= 0, k < i), over=cuts, trigger=False)),
+        ("consecutive", ForAll(lambda k: nth(cuts, k + 1) == nth(cuts, k) + SP.NL(data, nth(cuts, k)), guard=lambda k: And(k >= 0, k < i), over=cuts, trigger=False)),
+        ("values", ForAll(lambda k: SP.NV(data, nth(cuts, k)) == nth(xs, k), guard=lambda k: And(k >= 0, k < i), over=cuts, trigger=False)),
     ]
 
 
@@ -251,7 +276,7 @@ class SubstreamsInfoWrite(Contract):
     several; CRC record (0x0A, Digests structure) when some digest is defined; END"""
 
     target = AI + "SubstreamsInfo.write"
-    props = ()  # ("C07", "C08") once every obligation is discharged within the quick budget
+    props = ("C07", "C08")
     assert_mode = "check"
     opaque_numbers = True
 
@@ -315,12 +340,17 @@ class SubstreamsInfoWrite(Contract):
         alltrue = all_true_of(c, dd)
         total = psum(c, "nus", nus, nf)
         G = nf > 0
-        endN = ite(has_nus, nth(cutsN, nf), 1)
+        endN = pick(c, has_nus, nth(cutsN, nf), 1)
         startS = endN + 1
-        endS = ite(has_multi, nth(cutsS, total), endN)
+        endS = pick(c, has_multi, nth(cutsS, total), endN)
         q = endS + 1
-        cstart = ite(alltrue, q + 1, q + 1 + ceil8(nd))
-        endC = ite(anydef, cstart + 4 * rank(c, "ss", dd, nd), endS)
+        cstart = pick(c, alltrue, q + 1, q + 1 + ceil8(nd))
+        endC = pick(c, anydef, cstart + 4 * rank(c, "ss", dd, nd), endS)
+        if not conc(c) and c.eng.ctx_mode == "prove":
+            # proof hints (each is proved before it is used): which optional records this execution emitted
+            c.lemma("num-unpack-stream-record-presence", Implies(G, (nth(app, 1) == 0x0D) == has_nus))
+            c.lemma("size-record-presence", Implies(G, (nth(app, endN) == 0x09) == has_multi))
+            c.lemma("size-record-end", Implies(And(G, has_multi), nth(cutsS, total) == L(app) - 1 - ite(anydef, 1 + ite(alltrue, 1, 1 + ceil8(nd)) + 4 * rank(c, "ss", dd, nd), 0)))
         out = [
             ("nothing-without-folders", Implies(Not(G), L(app) == 0)),
             ("section-id", Implies(G, nth(app, 0) == 0x08)),
@@ -330,12 +360,12 @@ class SubstreamsInfoWrite(Contract):
         out += [
             ("size-record-iff-some-folder-holds-several", Implies(G, (nth(app, endN) == 0x09) == has_multi)),
             ("sizes.count", Implies(And(G, has_multi), And(L(cutsS) == total + 1, nth(cutsS, 0) == startS))),
-            ("sizes.all-but-last-of-each-folder", ForAll(lambda m: sizes_Q(c, app, cutsS, fo, nus, ups, nf, startS, m), guard=lambda m: And(G, has_multi, m >= 0, m < total), over=cutsS)),
+            ("sizes.all-but-last-of-each-folder", ForAll(lambda m: sizes_Q(c, app, cutsS, fo, nus, ups, nf, startS, m), guard=lambda m: And(G, has_multi, m >= 0, m < total), over=cutsS, trigger=False)),
             ("crc-record-iff-some-digest-defined", Implies(G, (nth(app, endS) == 0x0A) == anydef)),
             ("all-defined-flag", Implies(And(G, anydef), nth(app, q) == ite(alltrue, 1, 0))),
             ("defined-bits", ForAll(lambda k: SP.bit(app, q + 1, k) == nth(dd, k), guard=lambda k: And(G, anydef, Not(alltrue), k >= 0, k < nd), over=dd, mod=8)),
             ("padding-bits-zero", ForAll(lambda k: Not(SP.bit(app, q + 1, k)), guard=lambda k: And(G, anydef, Not(alltrue), k >= nd, k < 8 * ceil8(nd)), over=dd, trigger=False, mod=8)),
-            ("crc-of-each-defined-digest", ForAll(lambda k: SP.uint32_le(app, cstart + 4 * rank(c, "ss", dd, k)) == nth(dg, k), guard=lambda k: And(G, anydef, k >= 0, k < nd, nth(dd, k)), over=dd)),
+            ("crc-of-each-defined-digest", ForAll(lambda k: (c.inst(rank(c, "ss", dd, k)), SP.uint32_le(app, cstart + 4 * rank(c, "ss", dd, k)) == nth(dg, k))[1], guard=lambda k: And(G, anydef, k >= 0, k < nd, nth(dd, k)), over=dd)),
             ("end-marker", Implies(G, And(L(app) == endC + 1, nth(app, L(app) - 1) == 0))),
         ]
         return out
@@ -371,7 +401,7 @@ class SubstreamsInfoWrite(Contract):
                 ("cuts-length", And(L(cutsS) == idx + 1, L(fo) == idx, idx >= 0)),
                 ("cuts-first", nth(cutsS, 0) == startS),
                 ("cuts-last", nth(cutsS, idx) == L(app)),
-                ("substreams-so-far", ForAll(lambda m: sizes_Q(c, app, cutsS, fo, nus, ups, nf, startS, m), guard=lambda m: And(m >= 0, m < idx), over=cutsS)),
+                ("substreams-so-far", ForAll(lambda m: sizes_Q(c, app, cutsS, fo, nus, ups, nf, startS, m), guard=lambda m: And(m >= 0, m < idx), over=cutsS, trigger=False, cases=lambda m: [m < idx - 1, m >= idx - 1])),
             ]
 
         def inv1(c, Lp):
